@@ -108,5 +108,20 @@ def run(chk, prog):
     chk.floor("adev_distribution bindings", n, 7)
     _, lf = prog.func("logpdf", VI)
     rl = Evaluator(prog).eval_fn(lf, m)
+    from ..report import Check
+    from . import C26, C29
+
+    for mod_, keep in ((C26, lambda o: o["instance"].startswith(("Importance.run_smc", "ImportanceK.run_smc", "ParticleCollection.get_log", "Target."))),
+                       (C29, lambda o: o["rule"] in ("REPARAM-NOISE", "REINFORCE-FORM", "ESTIMATE-DEP") or o["instance"].startswith(("NormalREPARAM", "MvNormalDiagREPARAM", "FlipEnum.", "TailCall", "Expectation")))):
+        tmp = Check(mod_.__name__.split(".")[-1], chk.tier, chk.seed, write_evidence=False)
+        mod_.run(tmp, prog)
+        viol = {(v["rule"], v["instance"]): v for v in tmp.violations}
+        for o in tmp.obligations:
+            if keep(o):
+                v = viol.get((o["rule"], o["instance"]))
+                if v:
+                    chk.violation(v["rule"], v["instance"], v["construct"], v["derived"], v["expected"], v["where"])
+                else:
+                    chk.ok(o["rule"], o["instance"], o["fact"])
     chk.note("inherited open findings (owned elsewhere, one defect one finding): C26 PROPOSAL-PAIRING / RETAINED-SCORE (CSMC side), C29 KONT-ARITY for flip_mvd / categorical_enum guides")
     chk.explanation = "sign and composition of the four VI losses, key threading, and family pairing of ADEV primitives with log densities"
